@@ -5,11 +5,11 @@ go 1.26.0
 require (
 	go.sia.tech/core v0.0.0
 	golang.org/x/crypto v0.55.0
+	golang.org/x/sys v0.47.0
 )
 
 require (
 	go.sia.tech/mux v1.5.3 // indirect
-	golang.org/x/sys v0.47.0 // indirect
 	lukechampine.com/frand v1.5.1 // indirect
 )
 
